@@ -226,8 +226,8 @@ def corr_get_error(ctx: Ctx, drv):
         hasd = 0 if pre["diis"] is None else 1
         toks = ["get_error", f2b(pre["eps"]), nmol, hasd]
         for m in range(nmol):
-            toks += [int(pre["active"][m]), f2b(float(pre["Enew"][m])), f2b(float(pre["Eold"][m])), f2b(float(pre["fresh_dm"][m])), f2b(float(pre["fresh_el"][m])),
-                     f2b(float(pre["dmerr"][m])), f2b(float(pre["dmel"][m])), f2b(float(pre["diis"][m]) if hasd else 0.0), f2b(float(pre["err"][m]))]
+            toks += [int(pre["active"][m]), f2b(float(pre["Enew"][m])), f2b(float(pre["Eold"][m])), f2b(float(pre["err"][m])), f2b(float(pre["fresh_dm"][m])),
+                     f2b(float(pre["fresh_el"][m])), f2b(float(pre["dmerr"][m])), f2b(float(pre["dmel"][m])), f2b(float(pre["diis"][m]) if hasd else 0.0)]
         out = drv.ask(*toks)
         ok = len(out) == 4 * nmol
         if ok:
